@@ -12,14 +12,34 @@ OVERLAY = {
     "internal/zzverif/c10/c10_test.go": "c10/c10_test.go",
 }
 
+def _extra_coverage():
+    """skipped / broken cases as first-class numbers of the evidence (the driver itself fails above 5 % skipped)"""
+    import json
+    out = {"skipped_cases": 0, "broken_cases": 0}
+    path = os.path.join(os.path.dirname(os.path.dirname(os.path.abspath(__file__))), "out", "C10", "obs_all.jsonl")
+    try:
+        with open(path) as fh:
+            for line in fh:
+                tags = json.loads(line).get("tags") or []
+                out["skipped_cases"] += any(t.startswith("skipped:") for t in tags)
+                out["broken_cases"] += any(t.startswith("broken:") for t in tags)
+    except OSError:
+        pass
+    return out
+
+
 P = {
     "id": "C10",
+    "extra_coverage": _extra_coverage,
     "claimed": True,
-    "coq_targets": ["Properties/C10.vo", "Run/Eval_C10.vo", "C10/Sound.vo", "C10/SoundHist.vo"],
+    "coq_targets": ["Properties/C10.vo", "Run/Eval_C10.vo", "C10/Sound.vo", "C10/SoundHist.vo", "C10/Mixed.vo"],
     "theorems_module": "Properties.C10",
     "theorems": ["C10_ttl_within_lifetime", "C10_store_positive", "C10_finalizer_token_not_expired", "C10_zero_disables",
-                 "C10_config_only_shortens", "C10_http_not_stored_when_nonpositive", "C10_http_ttl_within_lifetime",
+                 "C10_config_only_shortens", "C10_rule_level_ttl_bounds",
+                 "C10_http_within_rfc_freshness", "C10_http_not_stored_when_stale", "C10_http_not_stored_without_lifetime",
+                 "C10_F4_inside_guard", "C10_F4_refuted",
                  "C10_no_hit_after_expiry", "C10_no_hit_after_expiry_http",
+                 "C10_no_hit_after_expiry_any_rule", "C10_hit_age_within_ttl_in_force", "C10_F5_refuted",
                  "C10_F1_pinned_refuted", "C10_F1_history_pinned_refuted", "C10_F2_pinned_refuted", "C10_F3_pinned_refuted",
                  "C10_nonvacuous", "C10_check_sound", "C10_check_sound_fixed", "C10_cache_expiry_enforced"],
     "streams": [{
@@ -27,23 +47,30 @@ P = {
         "eval_module": "Run.Eval_C10", "check_term": _CHECK,
         "n_quick": 1200, "n_thorough": 30000, "findings": {4: "C10-F4", 5: "C10-F5"}, "shard": 300,
     }],
-    "rule": "one overlay-only driver, five case kinds, corpus (witnesses of the repaired C10-F1/F2/F3) first: "
-            "fn (40%): one call of the REAL getCacheTTL of oauth2_introspection / jwt (JWK cache) / generic authenticator / "
-            "client credentials with expiry = now + delta (delta on a grid: absent, -1d .. +1d, dense around 0, +-leeway, 2*leeway, +-2) x "
-            "ttl state (unset, 0, -1ns, -1s, 1ns .. 1h, remaining lifetime +-1s; client credentials with sub-second offsets); "
-            "exec (25%): all seven mechanisms (client credentials both through Config.Token and through the oauth2_client_credentials finalizer) created by the REAL mechanism factory from a prototype cache_ttl (unset/0/-1s/3s..1h) and a "
-            "rule-level cache_ttl and/or another rule-level option through WithConfig, executed once against httptest endpoints with a recording cache: lookup?, ttl "
-            "handed to Set, accepted?, exp claim of the issued JWT; "
-            "http (15%): Cache-Control x Expires x Date x Last-Modified x status x method x request Cache-Control x default ttl "
-            "(0/5s/1h/-1s) through the REAL httpcache.RoundTripper into the REAL memory.Cache or the REAL redis cache (miniredis), "
-            "pquerna/cachecontrol's verdict (cachable, lifetime) is oracle data of the case; "
-            "cache (10%): time-stamped Set/Get sequences (ttl -1h..1h incl. 0, -1, -2, sub-millisecond) on both real backends "
-            "(miniredis FastForward = exact simulated time; in-memory = real sleeps with measured brackets); "
-            "hist (10%): 3-6 time-stamped requests over two keys through the real remote authorizer / generic contextualizer / generic "
-            "authenticator / round tripper (stub transport, or a contextualizer with endpoint.http_cache against a real httptest server) with a real backend, ttl in force 0 / short / long via prototype or rule level: hit/miss pattern and "
-            "Set ttls.  Non-trivial = fn/exec with expiry within +-2*leeway of now or a non-positive/rule-level ttl; http with any explicit "
-            "lifetime or default ttl; cache with a Get after a Set of the same key; hist with a repeated key.  Distinct by hash of the "
-            "(time-relative) input.",
+    "rule": ("one overlay-only driver using exported identifiers of /repo only; corpus (witnesses of the repaired C10-F1/F2/F3 and of the "
+            "open C10-F4/F5, chains, hit paths) first, then five case kinds: "
+            "exec (55%): all seven mechanisms (client credentials through Config.Token and through the oauth2_client_credentials "
+            "finalizer; generic sessions with integer and RFC 3339 `time_format` expiries; JWKs without certificate, with a self-signed "
+            "leaf, with x5c chains [leaf, root] whose root expires long after / shortly after / before the leaf, validate_jwk false and "
+            "true with a trust store) created by the REAL mechanism factory from a prototype cache_ttl (unset/0/-1s/3s..1h) and a "
+            "rule-level cache_ttl (palette, the grid 1ns..1h/0/negative, remaining lifetime +-1s) and/or another rule-level option "
+            "through WithConfig, executed once against httptest endpoints with a recording cache; expiry = now + delta (absent, -1d..+1d, "
+            "dense around 0, +-leeway, 2*leeway, +-2): lookup?, ttl and number of Sets, exp claim of the issued JWT; "
+            "http (20%): Cache-Control x Expires (instant/`0`/`-1`/garbage) x Date (now, +-30s, -1h) x Age (0..7200, garbage) x "
+            "Last-Modified x Vary x status x method x request Cache-Control x default ttl (0/5s/1h/-1s) through the REAL "
+            "httpcache.RoundTripper into the REAL memory.Cache or redis cache (miniredis); second request immediately or after simulated "
+            "0.5 s..2 h, optionally with the transport failing; the freshness-relevant header values are parsed by the driver's own "
+            "RFC 7234 reader (the model computes what cachecontrol computes from them, the specification what RFC 7234 4.2 says), "
+            "cachecontrol's cachability verdict is oracle data; "
+            "cache (10%): time-stamped Set/Get sequences (ttl -1h..1h incl. 0, -1, -2, sub-millisecond) on both real backends; "
+            "hist (10%): 3-6 time-stamped requests over two keys through one instance of remote authorizer / contextualizer / generic "
+            "authenticator / introspection / jwt finalizer / client credentials / JWK cache / round tripper (stub transport or a "
+            "contextualizer with endpoint.http_cache against a real httptest server), ttl 0/short/long via prototype or rule level, half "
+            "of the redis cases with expiry information 1-3 s beyond the cache leeway: hit paths of every mechanism run over time, Sets "
+            "during hits are counted; mix (5%): the same with every request under its own rule-level cache_ttl of one prototype.  "
+            "Non-trivial = exec with expiry within +-2*leeway of now or a non-positive/rule-level ttl; http with any explicit lifetime, "
+            "Age or default ttl; cache with a Get after a Set of the same key; hist/mix with a repeated key.  Distinct by hash of the "
+            "(time-relative) input."),
     "anchors": [
         "internal/rules/mechanisms/authenticators/oauth2_introspection_authenticator.go",
         "internal/rules/mechanisms/authenticators/generic_authenticator.go",
@@ -60,43 +87,45 @@ P = {
         "internal/rules/endpoint/endpoint.go",
     ],
     "trusted": [
-        "pquerna/cachecontrol (RFC 7234 parsing, cachability reasons, freshness lifetime) is an oracle: its answer on the very "
-        "request/response of the case is data of the case; responses whose only lifetime is the Last-Modified heuristic are not generated",
-        "token validity checks (introspection Validate, SessionLifespan.Assert) are reduced to the one fact the driver can trigger: "
-        "`exp` older than now - 10 s is rejected before anything is cached (C05 covers validation)",
-        "miniredis v2.33 stands for a Redis server (PX <= 0 rejected, key gone once PX elapsed); rueidis client-side caching is disabled "
-        "as in the repository's own tests; ttlcache v3.3.0 is exercised as it is (no background cleaner)",
-        "wall clock: every real call is bracketed by two clock readings; calls reading whole seconds are repeated when the second flips, "
-        "nanosecond-based observations must lie between the model's answers at both ends of the bracket, sleeping cases are repeated "
-        "(at most 6 times, then recorded as skipped) when a ttl falls into the measured uncertainty window + 2 ms",
-        "two thin export files injected into the authenticators and clientcredentials packages build the mechanism instance for a direct "
-        "getCacheTTL call by struct literal (field names ttl/TTL); all other cases go through the real factories",
+        "pquerna/cachecontrol's verdict whether a response is cachable at all (no-store, status, method ...) is oracle data of the "
+        "case; the freshness lifetime and age are NOT taken from it: the driver parses max-age/Expires/Date/Age itself and the "
+        "Coq model/specification compute from those values; responses whose only lifetime is the Last-Modified heuristic are not generated",
+        "token validation (introspection Validate, SessionLifespan.Assert, certificate validation) is not modelled: a rejected "
+        "answer must simply not be stored",
+        "miniredis v2.33 stands for a Redis server (PX <= 0 rejected, key gone once PX elapsed); rueidis client-side caching "
+        "(DoCache, on by default in production) is disabled as in the repository's own tests -- nothing behind that switch is observed; "
+        "ttlcache v3.3.0 is exercised as it is (no background cleaner)",
+        "wall clock: every real call is bracketed by two clock readings; cases reading whole seconds are repeated when the second "
+        "flips, a bracket wider than 4 s or a ttl inside a measured uncertainty window (+2 ms) makes the case repeat; a case that "
+        "cannot be pinned down is recorded as skipped (tag, evidence field skipped_cases), the driver fails above 5 % skipped; a "
+        "harness error voids only its own case (CBroken, never passes)",
+        "correspondence is refinement: the implementation may look up less, store less and for a shorter time than the model "
+        "(so conservative changes of leeways/defaults and C11's GET/HEAD/Vary gates raise no alarm), never more",
     ],
-    "level_text": "Proof (kernel-checked, no axioms) over all expiry/now/ttl relations in Z and all request histories (induction over "
-                  "histories, both cache semantics), for the code as repaired by 637ae67/c971513/e0dc5e2, without guards: every ttl a "
-                  "mechanism hands to the cache is positive, at most the configured ttl, and ends strictly before the credential's / "
-                  "certificate's / token's own expiry even if applied up to 4 s late; a ttl of zero in force disables lookup and store; a "
-                  "response with non-positive freshness lifetime is not handed to the cache and a stored one expires exactly at its "
-                  "freshness limit; no hit in any history happens at or after expiry; jwt-finalizer tokens served from cache are unexpired; "
-                  "both cache semantics enforce expiry for all Set/Get sequences.  The evaluator's property predicate (written from the "
-                  "property text) is proved to follow from model correspondence for every well-formed case of all five kinds "
-                  "(C10_check_sound_fixed).  The pinned defects are kept as C10_F1/F2/F3_pinned_refuted.  The model is tied to the code by "
-                  "running ~1200 (quick) / 30000 (thorough) generated cases per run through the real getCacheTTL functions, the real "
-                  "mechanism factory + WithConfig + Execute, the real RFC 7234 round tripper (stub transport and the real "
-                  "Endpoint.CreateClient wiring), the real in-memory cache and the real redis cache, and comparing ttls, lookups and "
-                  "hit/miss patterns with the model inside Coq.",
-    "level_note": "Trusted: Coq kernel/vm_compute; the correspondence harness; cachecontrol, miniredis, ttlcache as observed; token "
-                  "validation reduced to the expiry check.  The property predicate evaluated on the implementation's observations: ttl > 0, "
-                  "<= configured, set instant + ttl <= expiry + validity leeway (10 s for introspection and sessions, 0 for keys and "
-                  "tokens); zero disables; non-positive lifetime => not served from cache; hits only within the ttl handed to the cache.  "
-                  "Findings C10-F1, C10-F2, C10-F3 were replayed on the real code, repaired by fix: commits 637ae67, c971513, e0dc5e2 "
-                  "(fixes/C10-F*.diff are the patches those commits were made from) and are now regression cases of the corpus: reverting "
-                  "any of the three commits makes the check report a VIOLATION with the witness as replay.",
+    "level_text": ("Proof (kernel-checked, no axioms) over all expiry/now/ttl relations in Z, all header values and all request histories "
+                  "(induction, both cache semantics): every ttl a mechanism hands to the cache is positive, at most the ttl in force for the "
+                  "rule (rule level, else prototype) and ends strictly before the credential's / leaf certificate's / token's own expiry even "
+                  "if applied 4 s late; a ttl of zero disables lookup and store; for all max-age/Expires/Date/Age values what the round "
+                  "tripper stores lies within the RFC 7234 remaining freshness (lifetime minus current age; transcribed independently of the "
+                  "model) -- outside the guard of the open finding C10-F4; no hit in any history at or after expiry, also when requests run "
+                  "under different rules; where the cache key contains the ttl a hit under ttl c is at most c old (open finding C10-F5 for the "
+                  "three authenticators and client credentials, witness proved); both cache semantics enforce expiry for all Set/Get "
+                  "sequences; the evaluator's property predicate follows from refinement-correspondence for every well-formed case "
+                  "(C10_check_sound).  The model is tied to the code by ~1250 (quick) / 30000 (thorough) cases per run through the real "
+                  "mechanism factory + WithConfig + Execute, Config.Token, the RFC 7234 round tripper and both real cache backends."),
+    "level_note": ("Trusted: Coq kernel/vm_compute; the correspondence harness; cachecontrol's cachability verdict, miniredis, ttlcache as "
+                  "observed.  Spec decisions: `their certificate's expiry` = the leaf (x5c[0]) certificate's NotAfter (chains are generated, the "
+                  "other certificates must not influence the ttl); validity leeway 10 s for introspection and sessions, 0 for keys and tokens; "
+                  "`RFC 7234 freshness lifetime` = lifetime minus current age per RFC 7234 4.2, not what the library computes.  Repaired: "
+                  "C10-F1/F2/F3 (637ae67, c971513, e0dc5e2; reverting any is a VIOLATION).  Open, observed on every run, with guards and "
+                  "candidate repairs: C10-F4 (Age / old Date / unparsable Expires ignored; fixes/C10-F4.diff, model switch fx4) and C10-F5 "
+                  "(authenticator and client-credential cache keys lack the ttl, so a rule with a short cache_ttl is served an older entry; "
+                  "fixes/C10-F5.diff, fx5); VERIF_C10_FIXED=11111 selects the fully repaired model.  Not covered: rueidis client-side "
+                  "caching, oauth2 metadata-endpoint http cache and verifyTokenWithoutKID paths, evaluator soundness for mixed-rule cases."),
     "assumptions": [
         "durations fit in int64 nanoseconds (time.Duration); the theorems are over unbounded Z",
         "the delay between computing a ttl and the cache applying it is at most 4 s (max_delay) for the strict-before-expiry theorems",
-        "hist cases do not use the introspection authenticator: its cache key depends on map iteration order (C11-F1), identical "
-        "requests miss at random, so its hit/miss pattern is not a function of the input (a miss is always safe for C10)",
-        "the check_term expects the repaired code (VERIF_C10_FIXED defaults to 111)",
+        "Age and apparent age are whole seconds; Date/Expires have one-second resolution (RFC 7231)",
+        "the check_term expects /repo's state of repairs (VERIF_C10_FIXED defaults to 11100: F1-F3 repaired, F4/F5 open)",
     ],
 }
